@@ -265,8 +265,11 @@ Record nrt := { nstorage : option store; inv_map : list (Z * imap); learnQ : lis
 
 Definition nrt0 : nrt := {| nstorage := None; inv_map := []; learnQ := [] |}.
 
-(* messages non-realtime -> realtime *)
-Inductive rmsg := RWatch | RUnwatch | RBind (s : store).
+(* messages non-realtime -> realtime.  A midi-bind carries the pointer to a
+   snapshot; ans is that snapshot's `answers` field: the controller whose
+   midi-use-CC it is the answer to, -1 for a snapshot sent for another reason
+   (only the bind handler reads the field, clone() does not copy it). *)
+Inductive rmsg := RWatch | RUnwatch | RBind (s : store) (ans : Z).
 
 Definition qmem (a : Z) (c : bool) (q : list (Z * bool)) : bool :=
   existsb (fun x => (fst x =? a) && Bool.eqb (snd x) c) q.
@@ -289,7 +292,7 @@ Definition nrt_unmap (n : nrt) (a : Z) (c : bool) : option (nrt * list rmsg) :=
             match killMap kill (clone_store s) with
             | None => None
             | Some s' =>
-                Some ({| nstorage := Some s'; inv_map := inv'; learnQ := learnQ n |}, [RBind s'])
+                Some ({| nstorage := Some s'; inv_map := inv'; learnQ := learnQ n |}, [RBind s' (-1)])
             end
         end
   end.
@@ -308,7 +311,7 @@ Definition nrt_map (n : nrt) (a : Z) (c : bool) : option (nrt * list rmsg) :=
    addresses were given are withdrawn), then the empty snapshot *)
 Definition nrt_clear (n : nrt) : option (nrt * list rmsg) :=
   Some ({| nstorage := Some empty_store; inv_map := []; learnQ := [] |},
-        map (fun _ => RUnwatch) (learnQ n) ++ [RBind empty_store]).
+        map (fun _ => RUnwatch) (learnQ n) ++ [RBind empty_store (-1)]).
 
 (* generateNewBijection: a new value slot and callback after the existing ones *)
 Definition gen_new (st : option store) (p : port) (a : Z) : store :=
@@ -320,7 +323,10 @@ Definition gen_new (st : option store) (p : port) (a : Z) : store :=
 
 Definition nrt_useFreeID (ports : list port) (n : nrt) (id : Z) : option (nrt * list rmsg) :=
   match learnQ n with
-  | [] => Some (n, [])
+  | [] =>
+      (* no address waits: the unchanged mapping, as the answer to id *)
+      let same := match nstorage n with Some s => clone_store s | None => empty_store end in
+      Some ({| nstorage := Some same; inv_map := inv_map n; learnQ := [] |}, [RBind same id])
   | (a, c) :: q =>
       match nthZ ports a with
       | None => None                              (* apropos() == NULL *)
@@ -354,7 +360,7 @@ Definition nrt_useFreeID (ports : list port) (n : nrt) (id : Z) : option (nrt * 
                   | None => None
                   | Some ns2 =>
                       Some ({| nstorage := Some ns2; inv_map := inv_set a im' inv1; learnQ := q |},
-                            [RBind ns2])
+                            [RBind ns2 id])
                   end
               end
           end
@@ -421,8 +427,9 @@ Definition rt_deliver (r : rt) (m : rmsg) : option rt :=
   | RWatch => Some {| rstorage := rstorage r; pending := pending r; watch := watch r + 1 |}
   | RUnwatch => Some {| rstorage := rstorage r; pending := pending r;
                         watch := if watch r =? 0 then 0 else watch r - 1 |}
-  | RBind ns =>
-      match pq_pop (pending r) with
+  | RBind ns ans =>
+      (* only the answer to a midi-use-CC releases the oldest pending controller *)
+      match (if ans =? -1 then Some (pending r) else pq_pop (pending r)) with
       | None => None
       | Some p' =>
           match rstorage r with
@@ -458,7 +465,7 @@ Inductive obs :=
 | OE.                                           (* delivery on an empty channel *)
 
 Definition obs_of_rmsg (m : rmsg) : obs :=
-  match m with RWatch => OW | RUnwatch => OR | RBind _ => OB end.
+  match m with RWatch => OW | RUnwatch => OR | RBind _ _ => OB end.
 
 Definition nrt_result (w : world) (r : option (nrt * list rmsg)) (pre : list obs)
   : option (world * list obs) :=
